@@ -25,8 +25,8 @@ FindOK(f, want) ==
 Agree(s, f) == IF s.k \in {"route", "route400"} THEN f.k = "route" /\ f.t = s.t /\ f.m = s.m /\ f.args = s.args
                ELSE f.k = "none"
 
-Subs(o) == <<o.serve, o.pfx, o.esc, o.escU, o.bad, o.escR, o.pfxesc>>
-Finds(o) == <<o.find, o.findesc, o.findpfx, o.findescR, o.findpfxesc>>
+Subs(o) == <<o.serve, o.pfx, o.esc, o.escU, o.bad, o.escR, o.pfxesc, o.pfxescR>>
+Finds(o) == <<o.find, o.findesc, o.findpfx, o.findescR, o.findpfxesc, o.findpfxescR>>
 
 \* an empty argument makes the operation's own parameter check answer 400: fine;
 \* 400 with every argument non-empty is not a routing outcome the property admits
@@ -36,7 +36,7 @@ ReqVerdict(cur, o) ==
   LET want == Allowed(cur.rs, o.p, o.m)
       abstractOK == /\ \A i \in 1..Len(Subs(o)) : Proj(Subs(o)[i]) \in want /\ ~Bad400(Subs(o)[i])
                     /\ \A i \in 1..Len(Finds(o)) : FindOK(Finds(o)[i], want)
-                    /\ Agree(o.serve, o.find) /\ Agree(o.esc, o.findesc) /\ Agree(o.pfx, o.findpfx) /\ Agree(o.escR, o.findescR) /\ Agree(o.pfxesc, o.findpfxesc)
+                    /\ Agree(o.serve, o.find) /\ Agree(o.esc, o.findesc) /\ Agree(o.pfx, o.findpfx) /\ Agree(o.escR, o.findescR) /\ Agree(o.pfxesc, o.findpfxesc) /\ Agree(o.pfxescR, o.findpfxescR)
                     \* a request without the configured prefix is not found (unless the path itself carries it)
                     /\ (o.nopfx.k = "404" \/ (Len(o.p) >= 4 /\ SubSeq(o.p, 1, 4) = <<"/", "x", "x", "x">>))
       \* Dev_OptionsPreflight204: a known path without an OPTIONS operation answers OPTIONS with 204
